@@ -1225,6 +1225,7 @@ var host struct {
 	Write func(io.Writer)
 	Copy  func(io.Reader)
 	Show  func(...interface{})
+	Shape func(interface{}) int
 
 	// values of every shape crossing the boundary (property C07)
 	Swap      func(ht.Pair) ht.Pair
@@ -1262,6 +1263,7 @@ func Bind(h map[string]interface{}) {
 	host.Write = h["Write"].(func(io.Writer))
 	host.Copy = h["Copy"].(func(io.Reader))
 	host.Show = h["Show"].(func(...interface{}))
+	host.Shape = h["Shape"].(func(interface{}) int)
 	host.Swap = h["Swap"].(func(ht.Pair) ht.Pair)
 	host.Scale = h["Scale"].(func(*ht.Pair, int))
 	host.NewPair = h["NewPair"].(func(int, int) *ht.Pair)
